@@ -30,7 +30,7 @@ type LifeParams struct {
 	MaxAssoc int    `json:"maxAssoc"`
 	Race     bool   `json:"race"`
 	Forced   bool   `json:"forced"` // also run the deterministic forced schedules (counterexamples of the life-cycle model)
-	Gated    bool   `json:"gated"` // the interleaving at the scheduling points is chosen by a seeded random scheduler (blocking gates)
+	Gated    bool   `json:"gated"`  // the interleaving at the scheduling points is chosen by a seeded random scheduler (blocking gates)
 }
 
 // e2eLifeWorker: associations end by release, heartbeat failure, read time-out or Stop, with randomised timing of the
@@ -121,9 +121,99 @@ func e2eLifeWorker(args []string) error {
 		return nil
 	}
 
+	// forced overlaps: a second trigger of the same association's teardown fires while the first teardown is held in
+	// the middle of its session clean-up (parked before the first session's delete)
+	overlap := func(kind string) error {
+		cfg := agent.Cfg{N4Addr: p.N4Addr, Datapath: "bess", LogLevel: "warn", ReadTimeout: 30, RespTimeout: "40ms", MaxReqRetries: 1,
+			HBTimer: kind == "hbdead-during-stop", HBInterval: "70ms"}
+
+		w, err := e2e.NewWorld(filepath.Join(p.Dir, "overlap-"+kind), p.AgentBin, p.Trace, cfg, int(p.Seed%1000)*1000+950)
+		if err != nil {
+			return err
+		}
+		defer w.Close()
+
+		if err := w.StartAgent(); err != nil {
+			return err
+		}
+
+		w.Peer("p1").SetAutoHB(true)
+		w.Assoc("p1")
+
+		for i := 0; i < 3; i++ {
+			w.Estab("p1", simpleSession(uint64(rng.Int63()), 0x0AE10011+uint32(i), 1))
+		}
+
+		addr := w.Peer("p1").LocalAddr()
+		_ = w.Agent.Gate("conn.shutdown.session", true)
+		errsBefore := w.Bess.Snapshot().Errs
+
+		var monitor int
+
+		if kind == "hbdead-during-stop" {
+			_ = w.Agent.Gate("conn.hb.dead", true)
+			w.Peer("p1").SetAutoHB(false)
+
+			if monitor = w.WaitParked("conn.hb.dead", addr, 1, 3*time.Second); monitor == 0 {
+				sum.Err = "forced overlap " + kind + ": the heartbeat monitor never reached its gate (hooks absent or moved)"
+			}
+		}
+
+		start := time.Now()
+		w.Agent.Term()
+
+		// the first teardown (Serve: ctx.Done -> Shutdown) is held before its first session
+		first := w.WaitParked("conn.shutdown.session", addr, 1, 3*time.Second)
+		if first == 0 {
+			sum.Err = "forced overlap " + kind + ": the teardown never reached its gate (hooks absent or moved)"
+		}
+
+		if first != 0 {
+			switch kind {
+			case "release-during-stop":
+				_ = w.Peer("p1").Send(messageRelease(w.Peer("p1")))
+			case "hbdead-during-stop":
+				if monitor != 0 {
+					_ = w.Agent.Go(monitor)
+				}
+			}
+
+			// a second teardown that runs (instead of waiting for the first one) shows up at the same gate
+			second := w.WaitParked("conn.shutdown.session", addr, 2, 300*time.Millisecond)
+			if second != 0 {
+				sum.Stats["overlap_second_teardown_ran"]++
+			}
+
+			sum.Stats["overlap_"+kind]++
+		}
+
+		// let everything go: the gates are opened, whoever is parked (now or in a moment) continues
+		_ = w.Agent.Gate("conn.shutdown.session", false)
+		_ = w.Agent.Gate("conn.hb.dead", false)
+
+		for i := 0; i < 40; i++ {
+			w.ReleaseParked()
+			time.Sleep(5 * time.Millisecond)
+		}
+
+		w.FinishStop(start, errsBefore, 10*time.Second)
+		sum.Lines += w.Lines
+		sum.Steps += w.Steps
+		sum.Scenarios++
+
+		return nil
+	}
+
 	if p.Forced {
 		for _, k := range []string{"hbdead-vs-stop", "release-vs-stop"} {
 			if err := forced(k); err != nil {
+				sum.Err = err.Error()
+				return err
+			}
+		}
+
+		for _, k := range []string{"release-during-stop", "hbdead-during-stop"} {
+			if err := overlap(k); err != nil {
 				sum.Err = err.Error()
 				return err
 			}
@@ -165,6 +255,14 @@ func e2eLifeWorker(args []string) error {
 		if p.Gated {
 			if nassoc > 3 {
 				nassoc = 1 + rng.Intn(3)
+			}
+
+			if hb {
+				// three consecutive steps of the stalled class must fit into interval + 2 time-outs
+				w.SchedMaxHold = 40 * time.Millisecond
+				if p.Race {
+					w.SchedMaxHold = 80 * time.Millisecond
+				}
 			}
 
 			sched = w.StartRandomScheduler(rng.Int63(), time.Duration(rng.Intn(3))*time.Millisecond)
